@@ -21,6 +21,8 @@ ExprClauses(r) ==
    LET p == Parsed(r) IN
    IF ~p.ok THEN {}       \* ill-formed text: not judged (the statement speaks about expressions)
    ELSE (IF r.err \/ r.tt # TT(p.tree) THEN {"C07.truth"} ELSE {})
+        \* ... also under the default protocol (auto-detection of the dialect)
+        \cup (IF r.auto_err \/ r.auto_tt # TT(p.tree) THEN {"C07.truth_default_protocol"} ELSE {})
         \cup (IF ~r.err /\ r.form = "text" /\ IsBlank(r.text) /\ ~AllTrue(r.tt) THEN {"C07.empty"} ELSE {})
         \cup (IF r.err THEN {}
               ELSE LET q1 == ParseText(r.printed)  q2 == ParseText(r.pretty) IN
